@@ -211,4 +211,70 @@ theorem build_proj_partial (ord : List (Node × Node) → List (Node × Node)) (
   rw [edges_removeOrphans] at he ⊢
   exact this u v he d T hd
 
+/-! ### roles of the end points of a table edge (`SQLLineageHolder.source_tables / target_tables / intermediate_tables`) -/
+
+theorem mem_union (a b : List Node) (x : Node) : x ∈ union a b ↔ x ∈ a ∨ x ∈ b := by
+  unfold union
+  simp only [List.mem_append, List.mem_filter]
+  constructor
+  · rintro (h | ⟨h, _⟩)
+    · exact Or.inl h
+    · exact Or.inr h
+  · rintro (h | h)
+    · exact Or.inl h
+    · by_cases ha : x ∈ a
+      · exact Or.inl ha
+      · exact Or.inr ⟨h, by simp [ha]⟩
+
+/-- the end points of an edge of `table_lineage_graph` have the roles the property names: the tail is a source or an
+    intermediate table, the head a target or an intermediate table (a table tagged as self loop counts as source AND target) -/
+theorem table_edge_roles (g : LGraph) (hwf : Paths.WF g) (a b : Node) (he : (a, b) ∈ (tableGraph g).edges) :
+    (a ∈ sourceTables g ∨ a ∈ intermediateTables g) ∧ (b ∈ targetTables g ∨ b ∈ intermediateTables g) := by
+  have he' := (mem_edges_subgraph g Node.isDataset (a, b)).mp he
+  obtain ⟨heg, hka, hkb⟩ := he'
+  simp only at hka hkb
+  have han : a ∈ (tableGraph g).nodes := (mem_nodes_subgraph g _ a).mpr ⟨(hwf _ heg).1, hka⟩
+  have hbn : b ∈ (tableGraph g).nodes := (mem_nodes_subgraph g _ b).mpr ⟨(hwf _ heg).2, hkb⟩
+  have hout : 0 < (tableGraph g).outDeg a := (outDeg_pos_iff _ a).mpr ⟨b, he⟩
+  have hin : 0 < (tableGraph g).inDeg b := (inDeg_pos_iff _ b).mpr ⟨a, he⟩
+  constructor
+  · by_cases hs : a ∈ tagTables g .selfloop
+    · left
+      unfold sourceTables
+      simp only
+      rw [mem_union, mem_union]
+      exact Or.inl (Or.inr hs)
+    · by_cases h0 : (tableGraph g).inDeg a = 0
+      · left
+        unfold sourceTables
+        simp only
+        rw [mem_union, mem_union]
+        refine Or.inl (Or.inl ?_)
+        simp only [List.mem_filter, Bool.and_eq_true, beq_iff_eq, decide_eq_true_eq]
+        exact ⟨han, h0, hout⟩
+      · right
+        unfold intermediateTables
+        simp only [List.mem_filter, Bool.and_eq_true, decide_eq_true_eq, Bool.not_eq_true', List.contains_eq_mem,
+          decide_eq_false_iff_not]
+        exact ⟨⟨han, Nat.pos_of_ne_zero h0, hout⟩, hs⟩
+  · by_cases hs : b ∈ tagTables g .selfloop
+    · left
+      unfold targetTables
+      simp only
+      rw [mem_union, mem_union]
+      exact Or.inl (Or.inr hs)
+    · by_cases h0 : (tableGraph g).outDeg b = 0
+      · left
+        unfold targetTables
+        simp only
+        rw [mem_union, mem_union]
+        refine Or.inl (Or.inl ?_)
+        simp only [List.mem_filter, Bool.and_eq_true, beq_iff_eq, decide_eq_true_eq]
+        exact ⟨hbn, h0, hin⟩
+      · right
+        unfold intermediateTables
+        simp only [List.mem_filter, Bool.and_eq_true, decide_eq_true_eq, Bool.not_eq_true', List.contains_eq_mem,
+          decide_eq_false_iff_not]
+        exact ⟨⟨hbn, hin, Nat.pos_of_ne_zero h0⟩, hs⟩
+
 end SqlLineage.Projection
